@@ -168,68 +168,6 @@ func runCase(c Case) vh.Result {
 	return res
 }
 
-var hostileTokens = [][]byte{nil, []byte("-"), []byte("<"), []byte("<>"), []byte("<1"), []byte(">"), {0xff, 0xfe}, {0xc3}, []byte("\x00"), []byte("a\nb"), []byte("2019-08-15T15:50:46"), []byte("2019-08-15T"), []byte("[ ]"), []byte("@"), []byte("a@b.c"), []byte("\\"), []byte("="), []byte("appServ"), []byte("access.log"), []byte("errors"), []byte("main.log")}
-
-func genHostile(t *rapid.T, maxMsg int) []vh.Seg {
-	maxRec := maxMsg + 256
-	lens := []int{0, 1, 31, 32, 33, 1023, 1024, 1025, 65535, 65536, maxMsg - 1, maxMsg, maxMsg + 1, maxRec - 1, maxRec, maxRec + 1, 2*maxRec - 64, 2 * maxRec, 2*maxRec + 64, 4 * maxRec}
-	switch rapid.IntRange(0, 9).Draw(t, "kind") {
-	case 0: // raw bytes
-		return []vh.Seg{{Raw: rapid.SliceOfN(rapid.Byte(), 0, 80).Draw(t, "raw"), Rep: 1}}
-	case 1: // raw bytes that reach the parser
-		return []vh.Seg{{Raw: []byte("<"), Rep: 1}, {Raw: rapid.SliceOfN(rapid.Byte(), 31, 120).Draw(t, "raw"), Rep: 1}}
-	case 2, 3, 4: // valid-looking header with hostile tokens
-		l := vh.GenRealisticLine(t, 300)
-		for _, tok := range []*[]byte{&l.Time, &l.Host, &l.App, &l.Pid, &l.MsgID, &l.SD} {
-			if rapid.IntRange(0, 3).Draw(t, "mut") == 0 {
-				*tok = rapid.SampledFrom(hostileTokens).Draw(t, "tok")
-			}
-		}
-		switch rapid.IntRange(0, 5).Draw(t, "priKind") {
-		case 0:
-			l.Pri = rapid.SampledFrom([]string{"", "999999", "-1", "+1", "1a", "192", " "}).Draw(t, "pri")
-		case 1:
-			l.Ver = rapid.SampledFrom([]string{"", "2", "11"}).Draw(t, "ver")
-		}
-		b := l.Bytes()
-		if rapid.IntRange(0, 4).Draw(t, "cut") == 0 {
-			b = b[:rapid.IntRange(0, len(b)).Draw(t, "cutAt")]
-		}
-		return []vh.Seg{{Raw: b, Rep: 1}}
-	case 5, 6: // one oversized token at a boundary length
-		target := rapid.SampledFrom(lens).Draw(t, "len") + rapid.IntRange(-2, 2).Draw(t, "d")
-		which := rapid.IntRange(0, 6).Draw(t, "which")
-		fill := rapid.SampledFrom([][]byte{[]byte("x"), []byte("é"), {0xff}, []byte("a "), []byte("<1>1 ")}).Draw(t, "fill")
-		parts := [][]byte{[]byte("<13>1"), []byte("2020-01-01T00:00:00Z"), []byte("host"), []byte("appServ"), []byte("1"), []byte("access.log"), []byte("-"), []byte("msg")}
-		var segs []vh.Seg
-		for i, p := range parts {
-			if i > 0 {
-				segs = append(segs, vh.Seg{Raw: []byte(" "), Rep: 1})
-			}
-			if i == which+1 {
-				segs = append(segs, vh.Seg{Raw: fill, Rep: max(0, target) / len(fill)})
-			} else {
-				segs = append(segs, vh.Seg{Raw: p, Rep: 1})
-			}
-		}
-		return segs
-	case 7: // total length at a boundary, valid record with padded message of multi-byte runes
-		target := rapid.SampledFrom(lens).Draw(t, "len") + rapid.IntRange(-3, 3).Draw(t, "d")
-		head := []byte("<13>1 2020-01-01T00:00:00Z errors appServ 1 main.log - POST ab params=")
-		unit := rapid.SampledFrom([]string{"é", "€", "😀", "x", "\\n", "a@b.co "}).Draw(t, "unit")
-		return []vh.Seg{{Raw: head, Rep: 1}, {Raw: []byte(unit), Rep: max(0, target-len(head)) / len(unit)}}
-	case 8: // header only / missing fields
-		n := rapid.IntRange(0, 7).Draw(t, "nfields")
-		s := "<13>1" + strings.Repeat(" f", n)
-		for len(s) < 32 {
-			s += "_"
-		}
-		return []vh.Seg{{Raw: []byte(s), Rep: 1}}
-	default: // continuation-style garbage
-		return []vh.Seg{{Raw: []byte(rapid.SampledFrom([]string{"\tat com.foo.Bar(Baz.java:1)", "", " ", "Caused by: x", "<13>1 short"}).Draw(t, "garbage")), Rep: 1}}
-	}
-}
-
 func gen(t *rapid.T) Case {
 	var c Case
 	c.Sample = rapid.IntRange(0, 2).Draw(t, "sample") > 0
@@ -243,7 +181,7 @@ func gen(t *rapid.T) Case {
 	}
 	n := rapid.IntRange(1, 4).Draw(t, "ninputs")
 	for i := 0; i < n; i++ {
-		c.Inputs = append(c.Inputs, genHostile(t, c.MaxMsg))
+		c.Inputs = append(c.Inputs, vh.GenHostile(t, c.MaxMsg))
 	}
 	return c
 }
